@@ -1,27 +1,27 @@
-(* crates/apollo-parser/src/limit.rs : LimitTracker.  `current`, `high`, `limit` are usize in the code;
-   here N, with the one operation that can go below zero (`decrement`) returning an outcome. *)
+(* crates/apollo-parser/src/limit.rs : LimitTracker.  `p_current`, `high`, `limit` are usize in the code;
+   here N, with the one operation that can go below zero (`decrement`) returning an poutcome. *)
 From ApolloVerif Require Import Base.Chars Parse.Outcome.
 
-Record tracker := { tr_current : N; tr_high : N; tr_limit : N }.
+Record ptracker := { ptr_current : N; ptr_high : N; ptr_limit : N }.
 
 (* LimitTracker::new *)
-Definition tracker_new (limit : N) : tracker := {| tr_current := 0; tr_high := 0; tr_limit := limit |}.
+Definition ptracker_new (limit : N) : ptracker := {| ptr_current := 0; ptr_high := 0; ptr_limit := limit |}.
 
 (* LimitTracker::decrement : self.current -= 1 *)
-Definition tracker_decrement (t : tracker) : outcome tracker :=
-  if tr_current t =? 0 then Panic RecUnderflow
-  else Ok {| tr_current := tr_current t - 1; tr_high := tr_high t; tr_limit := tr_limit t |}.
+Definition ptracker_decrement (t : ptracker) : poutcome ptracker :=
+  if ptr_current t =? 0 then PPanic PnRecUnderflow
+  else POk {| ptr_current := ptr_current t - 1; ptr_high := ptr_high t; ptr_limit := ptr_limit t |}.
 
-(* LimitTracker::check_and_increment : returns (reached, tracker) *)
-Definition tracker_check_and_increment (t : tracker) : outcome (bool * tracker) :=
-  let current := tr_current t + 1 in
-  let high := if tr_high t <? current then current else tr_high t in
-  let t1 := {| tr_current := current; tr_high := high; tr_limit := tr_limit t |} in
-  let reached := tr_limit t <? current in
+(* LimitTracker::check_and_increment : returns (reached, ptracker) *)
+Definition ptracker_check_and_increment (t : ptracker) : poutcome (bool * ptracker) :=
+  let p_current := ptr_current t + 1 in
+  let high := if ptr_high t <? p_current then p_current else ptr_high t in
+  let t1 := {| ptr_current := p_current; ptr_high := high; ptr_limit := ptr_limit t |} in
+  let reached := ptr_limit t <? p_current in
   if reached then
-    match tracker_decrement t1 with
-    | Ok t2 => Ok (true, t2)
-    | Panic w => Panic w
-    | OutOfFuel => OutOfFuel
+    match ptracker_decrement t1 with
+    | POk t2 => POk (true, t2)
+    | PPanic w => PPanic w
+    | POutOfFuel => POutOfFuel
     end
-  else Ok (false, t1).
+  else POk (false, t1).
